@@ -216,7 +216,7 @@ HandleG0(fs, c) == ProcessLinearMoves(fs, c, FALSE, InsideLinear)
 \* arcs: the sampled points are abstracted by the classification carried by the command
 HandleG2(fs, c) ==
     IF ArcMoves(c)
-    THEN ProcessLinearMoves(fs, c, TRUE, LAMBDA f : c.cls = "in")
+    THEN ProcessLinearMoves(fs, c, TRUE, LAMBDA f : c.cls \in {"in", "clip"})
     ELSE Res(fs, "unchanged", <<>>)
 
 (***************************************************************************)
@@ -351,7 +351,7 @@ Applicable(fs, c) ==
     /\ (c.code \in {"G2", "G3"} /\ ArcMoves(c)) =>
           \* the classification is computed for the true tool position; with an (inverted,
           \* D11) G92 shift in effect the implementation samples the arc somewhere else
-          (c.cls \in {"in", "out"} /\ fs.X.abs /\ ~HasV(c, "R")
+          (c.cls \in {"in", "out", "clip"} /\ fs.X.abs /\ ~HasV(c, "R")
              /\ fs.X.off = 0 /\ fs.Y.off = 0 /\ fs.X.hoff = 0 /\ fs.Y.hoff = 0)
 
 =============================================================================
